@@ -110,6 +110,10 @@ type Sched struct {
 	MaxSteps  int
 	Trace     []string
 	KeepTrace bool
+	// ChanLog lists the channel operations of the execution when KeepChanLog is set.
+	KeepChanLog bool
+	ChanLog     []ChanOp
+	chanIDs     map[uintptr]int
 	// TimerFires lists the virtual timers that fired: scheduler step and virtual time.
 	TimerFires []TimerFire
 	// TimerLog lists every virtual timer created in the execution, in creation order.
@@ -172,8 +176,9 @@ func goid() uint64 {
 
 // Opts configure one execution.
 type Opts struct {
-	MaxSteps  int
-	KeepTrace bool
+	MaxSteps    int
+	KeepTrace   bool
+	KeepChanLog bool
 }
 
 // WatchdogTimeout is the wall-clock time after which an execution that does
@@ -188,7 +193,7 @@ func Run(prefix []int, o Opts, body func()) *Sched {
 	if o.MaxSteps == 0 {
 		o.MaxSteps = 20000
 	}
-	s := &Sched{closed: map[uintptr]bool{}, finished: make(chan struct{}), prefix: prefix, MaxSteps: o.MaxSteps, now: Epoch, KeepTrace: o.KeepTrace}
+	s := &Sched{closed: map[uintptr]bool{}, finished: make(chan struct{}), prefix: prefix, MaxSteps: o.MaxSteps, now: Epoch, KeepTrace: o.KeepTrace, KeepChanLog: o.KeepChanLog, chanIDs: map[uintptr]int{}}
 	S = s
 	s.active = true
 	t := s.newThread("main")
@@ -619,6 +624,23 @@ func (s *Sched) dispatchLocked(next *T) {
 		}
 		s.Trace = append(s.Trace, next.Name+":"+w)
 	}
+	if s.KeepChanLog {
+		switch p.kind {
+		case opSend:
+			s.logChan(next, 's', p.ch)
+		case opRecv:
+			s.logChan(next, 'r', p.ch)
+		case opSelect:
+			if next.sel >= 0 {
+				c := p.cases[next.sel]
+				k := byte('r')
+				if c.send {
+					k = 's'
+				}
+				s.logChan(next, k, c.ch)
+			}
+		}
+	}
 	next.pend = nil
 	if needPartner {
 		o, idx := s.partnerFor(next, relCh, relSend)
@@ -631,10 +653,40 @@ func (s *Sched) dispatchLocked(next *T) {
 		if s.KeepTrace {
 			s.Trace = append(s.Trace, o.Name+":rendezvous")
 		}
+		if s.KeepChanLog {
+			k := byte('r')
+			if relSend {
+				k = 's'
+			}
+			s.logChan(o, k, relCh)
+		}
 		o.pend = nil
 		o.partner = true
 		o.wake <- struct{}{}
 	}
+}
+
+// ChanOp is one channel operation of the execution (recorded when Opts.KeepChanLog is set): which thread
+// sent to / received from which channel at which step. Channels are numbered in order of first appearance.
+type ChanOp struct {
+	Step   int
+	Thread string
+	Kind   byte // 's' send, 'r' receive
+	Chan   int
+}
+
+func (s *Sched) logChan(t *T, kind byte, ch reflect.Value) {
+	p := chanPtr(ch)
+	if p == 0 {
+		return
+	}
+	id, ok := s.chanIDs[p]
+	if !ok {
+		id = len(s.chanIDs) + 1
+		s.chanIDs[p] = id
+		s.keep = append(s.keep, ch) // pin: the address identifies the channel for the rest of the execution
+	}
+	s.ChanLog = append(s.ChanLog, ChanOp{Step: s.Steps, Thread: t.Name, Kind: kind, Chan: id})
 }
 
 // killAllLocked ends the execution. Leftover threads are unwound ONE AT A TIME (each dying thread wakes
